@@ -431,6 +431,25 @@ func (c *Ctx) ListerRules(prop string) {
 				loop = l
 			}
 		}
+		if loop == nil && listVal != nil {
+			// the conversion loop lives in a helper that is handed the whole list
+			for _, ci := range Calls(H, func(ci ssa.CallInstruction) bool {
+				f := ci.Common().StaticCallee()
+				return f != nil && prog.InModule(f) && f.Blocks != nil && !ci.Common().IsInvoke()
+			}) {
+				f := ci.Common().StaticCallee()
+				for ai, a := range ci.Common().Args {
+					if a != listVal || ai >= len(f.Params) {
+						continue
+					}
+					for _, l := range FindLoops(f) {
+						if l.FullRange && l.BoundLen == ssa.Value(f.Params[ai]) {
+							loop, H, listVal = l, f, f.Params[ai]
+						}
+					}
+				}
+			}
+		}
 		if loop == nil {
 			c.R.Unknown(rule5, Fn(H), c.P.FuncPos(H), "no full-range loop over the lister's result found in the handler")
 			continue
